@@ -46,6 +46,8 @@ def _isnum(x):
 
 
 class Env:
+    _lemma_cache = {}
+
     def __init__(self, mode, ctx=None, inputs=None, record=None, opts=None):
         self.mode = mode
         self.sym = mode == "sym"
@@ -202,6 +204,46 @@ class Env:
             return True
         r, _ = self.rec._query([neg], timeout)
         return r == z3.unsat
+
+    def generic_lemma(self, builder, actual, label, lo=0.0, timeout=60000):
+        """Prove builder(xs) for ALL fresh reals xs >= lo with a stand-alone query, then add the
+        instance builder(actual) to the path condition (sound: the lemma is universally valid).
+        Counts as one obligation. concrete mode: evaluates the instance."""
+        if not self.sym:
+            self.claim(bool(builder(list(actual))), label)
+            return True
+        self.nclaims += 1
+        rec = self.rec
+        rec.obligations += 1
+        rec.labels.append(label)
+        if Env._lemma_cache.get(label) is True:
+            # proven earlier in this process for all non-negative reals: instantiate only
+            rec.discharged += 1
+            rec.trivial += 1
+            self.ctx.assume(builder(list(actual)))
+            return True
+        xs = [z3.Real("lem!%d!%d" % (rec.obligations, i)) for i in range(len(actual))]
+        c = builder([Sym(x) for x in xs])
+        c = c.e if isinstance(c, SymBool) else c
+        s_ = z3.Solver()
+        s_.set("timeout", timeout)
+        s_.add(*[x >= S.toz(lo) for x in xs])
+        s_.add(z3.Not(c))
+        t0 = time.time()
+        r = s_.check()
+        rec.obl_time += time.time() - t0
+        rec.nqueries += 1
+        if r == z3.unsat:
+            rec.discharged += 1
+            Env._lemma_cache[label] = True
+            inst = builder(list(actual))
+            self.ctx.assume(inst)
+            return True
+        if r == z3.sat:
+            rec.cex.append({"label": label, "info": {"lemma_model": str(s_.model())[:300]}, "inputs": model_inputs(self, self.ctx.solve([], 10000, full=True)[1]) if self.ctx.solve([], 10000, full=True)[0] == z3.sat else {}, "trace": list(self.ctx.trace)})
+        else:
+            rec.inconclusive.append({"label": label, "why": "lemma: solver unknown/timeout"})
+        return False
 
     def equal(self, a, b, label, info=None):
         self.close(a, b, label, rel=0.0, abs_=0.0, info=info)
